@@ -189,6 +189,15 @@ def apply_node_op(node, op):
             node.yaml_node.value.append(node.yaml_node.value[0])
     elif k == 'get_attr':             # a savorize that reads an attribute (SeasoningError when absent)
         node.get_attribute(op[1])
+    elif k == 'attr_get_value':       # a hook that looks at the VALUE of a scalar attribute, as the docs' recipes do
+        if node.is_mapping() and node.has_attribute(op[1]):
+            a = node.get_attribute(op[1])
+            # get_value() is documented for scalars whose type is_scalar(type) confirms (a timestamp is none of them)
+            if any(a.is_scalar(t) for t in (str, int, float, bool, None)):
+                a.get_value()
+    elif k == 'attr_has_type':
+        if node.is_mapping():
+            node.has_attribute_type(op[1], {'int': int, 'str': str, 'float': float, 'bool': bool, 'list': list, 'dict': dict}[op[2]])
     elif k == 'stamp':
         # C10: leave a visible mark of this call on the mapping: the n-th stamp of its family (s_ / w_) gets the
         # value n; a second call of the same hook on the same node adds 100
@@ -235,6 +244,11 @@ def _mk_hook(kind, ops, defining, built):
     def hook(cls, node):
         LOG.append((kind, defining, cls.__name__))
         for op in ops:
+            if op[0] == 'only_mapping':
+                # a well-behaved hook: the mapping helpers are documented for mapping nodes only
+                if kind != 'recognize' and not node.is_mapping():
+                    return
+                continue
             if op[0] == 'remove_defaults':
                 op = ('remove_defaults', cls)
             if kind == 'recognize':
